@@ -4,24 +4,31 @@
 // (slot hand-back). Capacity 1 -> 2 slots, so the third push reuses slot 0.
 #include <dispenso/spsc_ring_buffer.h>
 #include "vf.h"
-#include "race_probe.h"
+#include "probe.h"
 
-using Ring = dispenso::SPSCRingBuffer<RaceProbe, 1>;
+using Ring = dispenso::SPSCRingBuffer<Probe, 1>;
 static Ring R;
 
 static void consumer(void*) {
-  RaceProbe out;
+  Probe out{Probe::Private{}};
   R.try_pop(out);
   R.try_pop(out);
 }
 
 extern "C" void vf_main() {
+  {
+    VfAtomic noPreempt;  // the warm-up must run in one piece so that the detector's key tables stay constant
+    warm_atomic(R.head_);
+    warm_atomic(R.tail_);
+    warm_probe(R.elementAt(0));
+    warm_probe(R.elementAt(1));
+  }
   vf_spawn(consumer, nullptr);
   R.try_emplace(1);   // slot 0
   R.try_emplace(2);   // slot 1 (only after a pop: capacity 1)
   R.try_emplace(3);   // slot 0 again
   vf_join_all();
-  RaceProbe out;
+  Probe out{Probe::Private{}};
   while (R.try_pop(out)) {
   }
 }
